@@ -118,40 +118,41 @@ CFG = {'lean_modules': ['ObiVerif.Props.C12', 'ObiVerif.Props.C12S', 'ObiVerif.P
  "and a non-delimiter base before the outer border (rescue_limits shows both failure shapes; the generator's built reads with rescue markers and no "
  'outer base are in the correspondence, without expectation). The library object is modelled WITH its state (Model/DemuxState.lean) and '
  'read-independence is a theorem on the transcription (the per-read code has no write to the library: every access is a read of the state argument); '
- 'that the transcription misses no write of the real code is tied by the history oracle (a read after others = the read on a fresh library) and the '
- 'frame oracle (library dump after = before) of the multi cases — the seeded cache C12-m3 is such a missed write and is caught by them. The matcher '
- 'is a parameter of that model (its hits are a function of the primers, the frozen budgets and the read: C10); the pooled annotation maps of obiseq '
- 'are C05. obimultiplex is modelled from the records of the worker on (route); batching, parallel workers and the writers are C03/C04/C05; the file '
- 'of unidentified reads is compared as (id, sequence, error text). The sheet reader is modelled from the BYTES (sheetb cases) for texts in which no '
- 'CSV field starts with a double quote (a quoted field is the explicit outcome `unmodelled`, never generated; with LazyQuotes a quote inside a bare '
- 'field is an ordinary byte): encoding/csv comments / empty lines / TrimLeadingSpace / CRLF, the 3072-byte window of the detectors with its dropped '
- 'last line, and the choice of the reader IN THE STATE OF THE MIMETYPE TREE OF THE RUNNING COMMAND (whichReader): the tree is process-global and '
- 'both guessers of obiformats extend it, in front, at every call; obimultiplex opens its input (OBIMimeTypeGuesser: FASTQ / FASTA / EMBL / '
- "GenBank-prefix / ecoPCR detectors and a csv detector attached to the ROOT, asked even for data with 'binary' bytes such as a vertical tab) before "
- "it reads the sheet, so a sheet that looks like a sequence file (e.g. '@param,…' followed by one line without blank, or by a line starting with "
- "'+': FASTQ) goes to the old reader, a constant-width CSV is text/csv whatever its bytes, and only then magic.Text and NGSFilterCsvDetector are "
- 'asked; tab-separated-values / plain text / octet-stream all go to the old reader. The harness pins that state once per process (OBSERVATION, no '
- 'patch: in a process that has not opened a sequence file, ReadNGSFilter sends a constant-width CSV holding a vertical tab to the old reader, which '
- 'rejects it; the answer of a library function depends on what the process did before). Not modelled: the second form of the GenBank detector (a '
- "first line '… Genetic Sequence Data Bank'), the other children of text/plain (html, xml, php, js, lua, perl, python, json, ndjson, rtf, srt, tcl, "
- 'vcard, icalendar, warc, vtt) and the formats recognised by magic numbers — the text is assumed to be ASCII that none of them recognises. The '
- 'read-back theorems are stated for renderings with a final line terminator (no final newline, a lone final CR: correspondence only) and '
- 'accepted_csv_sheet_is_declared_table_partial for renderings below the 3072-byte window that do not look like a sequence file and hold no binary '
- 'byte (beyond the window: modelled and tied, not in the theorem); the annotation part of the old format is modelled for the sub-grammar key=word; '
- 'only (ParseOBIFeatures is C02); text is ASCII. In the record-level model (sheet cases) a CSV text that is not detected as CSV is assumed to be '
- 'rejected by the old reader; the byte-level model (sheetb cases) sends it to the old reader and reads its lines. Observation (not a property '
- 'violation, no patch): OBIMimeNGSFilterTypeGuesser registers one more CSV detector in the global mimetype tree at every call, so repeated readings '
- 'get slower (the harness reads each sheet once per library). obimultiplex command level: --allowed-mismatches / --with-indels → library parameters '
- 'is modelled (applyOpts) and tied on the real worker constructor (wk cases, incl. several constructions on one object); --keep-errors / '
- "--unidentified are modelled (route) and tied through the command's own option parser and IExtractBarcode; the template printed by --template is "
- 'read by the real reader and by the byte-level model (LF and CRLF). Open finding (code left as it is, modelled as it is, theorems '
- 'gating_breaks_symmetry and positional_gating_breaks_symmetry; KEPT after measurement: removing the gating costs a fourth whole-read scan per '
- 'marker on every ordinary read — 3 -> 4 scans, 2 -> 4 on reads without site; measured 11 -> 23 us per read for the scans of the template library on '
- "the loaded machine, the whole worker taking ~30 us — and a fix limited to 'scan the complemented primer when the direct one misses' costs the same "
- 'fourth scan and leaves the positional half of the asymmetry): the hits of a complemented primer are collected only when the partner primer hits '
- 'somewhere, so in reads with lone priming sites a hit lying between a forward hit and its complementary hit can be invisible to the state machine '
- '(pseudo-amplicon, and a different answer on the other strand). Three defects repaired in /repo (tag-length error dropped, map-order dependence, '
- 'primer-unicity error dropped): the model is of the repaired behaviour.'),
+ 'the model executable runs every history of the multi cases through that state-passing model (runHistory on one object, the matcher parameter being '
+ 'the hit lists of the real calls); that the transcription misses no write of the real code is tied by the history oracle (a read after others = the '
+ 'read on a fresh library) and the frame oracle (library dump after = before) of the multi cases — the seeded cache C12-m3 is such a missed write '
+ 'and is caught by them. The matcher is a parameter of that model (its hits are a function of the primers, the frozen budgets and the read: C10); '
+ 'the pooled annotation maps of obiseq are C05. obimultiplex is modelled from the records of the worker on (route); batching, parallel workers and '
+ 'the writers are C03/C04/C05; the file of unidentified reads is compared as (id, sequence, error text). The sheet reader is modelled from the BYTES '
+ '(sheetb cases) for texts in which no CSV field starts with a double quote (a quoted field is the explicit outcome `unmodelled`, never generated; '
+ 'with LazyQuotes a quote inside a bare field is an ordinary byte): encoding/csv comments / empty lines / TrimLeadingSpace / CRLF, the 3072-byte '
+ 'window of the detectors with its dropped last line, and the choice of the reader IN THE STATE OF THE MIMETYPE TREE OF THE RUNNING COMMAND '
+ '(whichReader): the tree is process-global and both guessers of obiformats extend it, in front, at every call; obimultiplex opens its input '
+ '(OBIMimeTypeGuesser: FASTQ / FASTA / EMBL / GenBank-prefix / ecoPCR detectors and a csv detector attached to the ROOT, asked even for data with '
+ "'binary' bytes such as a vertical tab) before it reads the sheet, so a sheet that looks like a sequence file (e.g. '@param,…' followed by one line "
+ "without blank, or by a line starting with '+': FASTQ) goes to the old reader, a constant-width CSV is text/csv whatever its bytes, and only then "
+ 'magic.Text and NGSFilterCsvDetector are asked; tab-separated-values / plain text / octet-stream all go to the old reader. The harness pins that '
+ 'state once per process (OBSERVATION, no patch: in a process that has not opened a sequence file, ReadNGSFilter sends a constant-width CSV holding '
+ 'a vertical tab to the old reader, which rejects it; the answer of a library function depends on what the process did before). Not modelled: the '
+ "second form of the GenBank detector (a first line '… Genetic Sequence Data Bank'), the other children of text/plain (html, xml, php, js, lua, "
+ 'perl, python, json, ndjson, rtf, srt, tcl, vcard, icalendar, warc, vtt) and the formats recognised by magic numbers — the text is assumed to be '
+ 'ASCII that none of them recognises. The read-back theorems are stated for renderings with a final line terminator (no final newline, a lone final '
+ 'CR: correspondence only) and accepted_csv_sheet_is_declared_table_partial for renderings below the 3072-byte window that do not look like a '
+ 'sequence file and hold no binary byte (beyond the window: modelled and tied, not in the theorem); the annotation part of the old format is '
+ 'modelled for the sub-grammar key=word; only (ParseOBIFeatures is C02); text is ASCII. In the record-level model (sheet cases) a CSV text that is '
+ 'not detected as CSV is assumed to be rejected by the old reader; the byte-level model (sheetb cases) sends it to the old reader and reads its '
+ 'lines. Observation (not a property violation, no patch): OBIMimeNGSFilterTypeGuesser registers one more CSV detector in the global mimetype tree '
+ 'at every call, so repeated readings get slower (the harness reads each sheet once per library). obimultiplex command level: --allowed-mismatches / '
+ '--with-indels → library parameters is modelled (applyOpts) and tied on the real worker constructor (wk cases, incl. several constructions on one '
+ "object); --keep-errors / --unidentified are modelled (route) and tied through the command's own option parser and IExtractBarcode; the template "
+ 'printed by --template is read by the real reader and by the byte-level model (LF and CRLF). Open finding (code left as it is, modelled as it is, '
+ 'theorems gating_breaks_symmetry and positional_gating_breaks_symmetry; KEPT after measurement: removing the gating costs a fourth whole-read scan '
+ 'per marker on every ordinary read — 3 -> 4 scans, 2 -> 4 on reads without site; measured 11 -> 23 us per read for the scans of the template '
+ "library on the loaded machine, the whole worker taking ~30 us — and a fix limited to 'scan the complemented primer when the direct one misses' "
+ 'costs the same fourth scan and leaves the positional half of the asymmetry): the hits of a complemented primer are collected only when the partner '
+ 'primer hits somewhere, so in reads with lone priming sites a hit lying between a forward hit and its complementary hit can be invisible to the '
+ 'state machine (pseudo-amplicon, and a different answer on the other strand). Three defects repaired in /repo (tag-length error dropped, map-order '
+ 'dependence, primer-unicity error dropped): the model is of the repaired behaviour.'),
  'trusted_base': LEAN_TB + ['the primer hits (AllMatches of the four compiled patterns of each marker) are data of the model: the matcher is property C10',
  'model `gate` of the symmetry theorems (a search started at p = the hits of the whole read starting at p or after): exact on pairwise '
  "non-overlapping raw hits (proved on C10's model of FilterBestMatch), counted on every case, not assumed elsewhere",
